@@ -138,6 +138,8 @@ type (
 		updatedStreamsDuringTaggingJob bitmask.LongBitmask
 		resetStreamsDuringTaggingJob   bitmask.LongBitmask
 		addedStreamsDuringTaggingJob   bitmask.LongBitmask
+		// streams whose data changed while a converter job was running on an older index snapshot
+		changedStreamsDuringConverterJob bitmask.LongBitmask
 
 		streamsToConvert         map[string]*bitmask.LongBitmask
 		pcapProcessorWebhookUrls []string
@@ -664,7 +666,9 @@ func (mgr *Manager) importPcapJob(filenames []string, nextStreamID uint64, exist
 			mgr.resetStreamsDuringTaggingJob.Or(*resetStreams)
 			mgr.addedStreamsDuringTaggingJob.Or(*addedStreams)
 			mgr.invalidateTags(*updatedStreams, *resetStreams, *addedStreams)
-			mgr.invalidateConverters(updatedStreams)
+			changedStreams := updatedStreams.OrCopy(*resetStreams)
+			mgr.changedStreamsDuringConverterJob.Or(changedStreams)
+			mgr.invalidateConverters(&changedStreams)
 		}
 		// remove finished job from queue
 		mgr.importJobs = mgr.importJobs[processedFiles:]
@@ -1510,6 +1514,7 @@ func (mgr *Manager) startConverterJobIfNeeded() {
 		return
 	}
 	indexes, releaser := mgr.getIndexesCopy(0)
+	mgr.changedStreamsDuringConverterJob = bitmask.LongBitmask{}
 	go mgr.convertStreamJob(activeConverters, streamsToConvert, indexes, releaser)
 	mgr.converterJobRunning = true
 }
@@ -1634,6 +1639,8 @@ func (mgr *Manager) convertStreamJob(allConverters []*converters.CachedConverter
 	verifGate("convert.done")
 	mgr.jobs <- func() {
 		mgr.converterJobRunning = false
+		// the job converted from an older index snapshot: drop what changed meanwhile and queue it again
+		mgr.invalidateConverters(&mgr.changedStreamsDuringConverterJob)
 
 		for i, converter := range allConverters {
 			// The converter was removed while we were running.
